@@ -118,6 +118,12 @@ def gen(tier, rng, harness=None, driver=None):
     # inputs the parser accepts although LLVM would not: element annotations of an aggregate constant that differ from the element type of the aggregate
     # (they are kept as written); the printed text must still be a fixpoint
     from . import catalog as _cat
+    # key-value attributes with an EMPTY value next to the bare string attribute of the same key (`"k"=""` and `"k"` are different attributes): in a group, in two
+    # definitions of one group, on a function header, at a call site, on a global variable
+    for body in ('"k"=""', '"k"="" "k"', '"k" "k"=""', '"k"="" "k"="" "k"'):
+        lines.append("!mod.stable - %s" % hx('define void @f() #0 {\n\tret void\n}\n\nattributes #0 = { %s }\n' % body))
+        lines.append("!mod.stable - %s" % hx('declare void @d() %s\n\n@g = global i32 0 %s\n\ndefine void @f() %s {\n\tcall void @d() %s\n\tret void\n}\n' % (body, body, body, body)))
+    lines.append("!mod.stable - %s" % hx('define void @f() #0 {\n\tret void\n}\n\nattributes #0 = { "k"="" }\nattributes #0 = { "k" }\n'))
     # integer literals that do NOT fit their type (accepted and kept as written) at values the printer spells in hexadecimal: the printed text is read back as the same value
     for ty, v in (("i8", 4096), ("i8", 65535), ("i16", 2147483648), ("i1", 4096), ("i4", 61440), ("i32", 2**40), ("i63", 2**63), ("i64", 2**64), ("i8", -4096)):
         lines.append("!mod.stable - %s" % hx("@g = global %s %d\n@v = global <2 x %s> <%s %d, %s 1>\n" % (ty, v, ty, ty, v, ty)))
